@@ -225,8 +225,11 @@ def run_case(ctx, res, p):
 CONFIGS = ["full", "full_nystroem", "sparse_cholesky", "fixed"]
 
 
-def gen_case(rng, est=None, kind=None, normalize=None):
+def gen_case(rng, est=None, kind=None, normalize=None, const_col=None):
     est = est or ["density", "density", "time", "dim"][rng.integers(4)]
+    if kind is None:
+        kinds_ = ["isometry", "scale", "perm"] + (["time"] if est == "time" else [])
+        kind = kinds_[rng.integers(len(kinds_))]
     n, d = 20, 2
     X, _ = gen_points(rng, n, d, kind=["plain", "clustered"][rng.integers(2)], scale=1.0)
     if rng.random() < 0.4:
@@ -235,6 +238,10 @@ def gen_case(rng, est=None, kind=None, normalize=None):
             i, j = rng.choice(n, size=2, replace=False)
             v = rng.normal(size=d)
             X[i] = X[j] + v / np.linalg.norm(v) * loguniform(rng, 1e-5, 1e-2)
+    if kind == "isometry" and (const_col if const_col is not None else rng.random() < 0.2):
+        # the cells lie in a coordinate hyperplane (one exactly constant coordinate): after a rotation every coordinate
+        # varies; d, mu, the loss and the fit must not notice
+        X[:, int(rng.integers(d))] = float(np.round(rng.normal(), 2))
     Xq, _ = gen_points(rng, 4, d, kind="plain", scale=0.8)
     if est == "time":
         X = np.c_[X, np.repeat(np.arange(2.0), 10)[rng.permutation(n)]]
@@ -285,6 +292,6 @@ def run(ctx, res):
     for est, kind, nz in plan:
         if time.time() > t_end + budget:       # at most twice the budget for the fixed plan
             break
-        run_case(ctx, res, gen_case(rng, est, kind, nz))
+        run_case(ctx, res, gen_case(rng, est, kind, nz, const_col=(est == "density" and kind == "isometry") or None))
     while time.time() < t_end:
         run_case(ctx, res, gen_case(rng))
